@@ -2,5 +2,6 @@ SPECIFICATION Spec
 CONSTANTS
   Defect = "splitoff"
   MaxChanges = 1
+  FocusKeys = {}
 INVARIANT PartitionExact
 CHECK_DEADLOCK FALSE
